@@ -16,7 +16,7 @@ Hypotheses of the `_partial` theorems:
   whenever the semantics converts it at all;
 * `h8 E e = true` — the decidable condition of `C08/Model.lean`, computed by the driver (`c08.h`):
   it excludes exactly the places where darklua's primitive DISAGREES with Lua on doubles
-  (F1/F2 ε-equality, F3 number formatting under `..`, F4 interpolation of an undetermined value)
+  (F3 number formatting under `..`; F1/F2 ε-equality and F4 interpolation of an undetermined value are fixed)
   and reference equality of two fresh tables/functions across an effectful operand.
 The `_full` statements (no `h8`) are refuted by concrete witnesses (`_full_false`).
 -/
@@ -219,9 +219,9 @@ def toyN : NumOps where
   sqrt := id
 
 /-- evaluator primitives that DISAGREE with `toyN` the way darklua's disagree with Lua on doubles:
-an "equality" that is not equality (F1/F2), a number format that is not `tostring` (F3) -/
+a number format that is not `tostring` (F3). (F1/F2 — an equality that is not equality — is fixed:
+the evaluator now uses the semantics' own `N.eq`.) -/
 def toyE : EvalOps toyN where
-  epsEq := fun _ _ => true
   fmtRust := fun _ => [1]
   parseLit := fun _ => none
 
@@ -238,12 +238,16 @@ def evaluate_sound_full : Prop :=
       (vs : List (Val N)) (w : Val N),
       toVal? (evaluate E e) = some w → evalE call ρ k env e σ = .ok vs σ' → vs = [w]
 
-/-- F1/F2: `0 == 1` "evaluates" to `true` when the evaluator's equality is not the semantics' -/
+/-- F3: `0 .. ""` "evaluates" to the Rust-formatted text, execution yields the `tostring` text -/
 theorem evaluate_sound_full_false : ¬ evaluate_sound_full := by
   intro h
-  have := h toyN toyE toy_agree call0 ρ0 0 ⟨[], []⟩ (.bin .eq (.num 0) (.num 1)) σ0 σ0
-    [.bool false] (.bool true) rfl rfl
+  have := h toyN toyE toy_agree call0 ρ0 0 ⟨[], []⟩ (.bin .concat (.num 0) (.str [])) σ0 σ0
+    [.str [2]] (.str [1]) rfl rfl
   simp at this
+
+-- regression (F1/F2, fixed): `0 == 1` now evaluates to `false`, as it runs
+example : toVal? (evaluate toyE (.bin .eq (.num 0) (.num 1))) = some (.bool false) ∧
+    evalE call0 ρ0 0 ⟨[], []⟩ (.bin .eq (.num 0) (.num 1)) σ0 = .ok [.bool false] σ0 := ⟨rfl, rfl⟩
 
 def pure_sound_full : Prop :=
   ∀ (N : NumOps) (E : EvalOps N), Agree N E →
@@ -251,48 +255,28 @@ def pure_sound_full : Prop :=
       (vs : List (Val N)),
       hasSideEffects E false e = false → evalE call ρ k env e σ = .ok vs σ' → σ'.trace = σ.trace
 
-/-- the state of the F4 witness: global `x` is table 0 whose metatable (table 1) has
-`__tostring` = the external function `emit` -/
-def σ4 : State toyN :=
-  { globals := [("x", .tbl 0)], cells := [],
-    tables := [⟨[], some 1⟩, ⟨[(strVal "__tostring", .builtin "emit")], none⟩],
-    closures := [], trace := [] }
-
-/-- F4: `` `{x}` `` is declared side-effect free, yet evaluating it calls `x`'s `__tostring` -/
+/-- F3 reaches the side-effect analysis: `((0 .. "") ~= "\x01") and f()` is declared side-effect free
+(the folded left operand "evaluates" to `false`), yet execution calls `f` -/
 theorem pure_sound_full_false : ¬ pure_sound_full := by
   intro h
-  have := h toyN toyE toy_agree call0 ρ0 2 ⟨[], []⟩ (.interp [.v (.var "x")]) σ4
-    { σ4 with trace := [⟨"emit", [.tbl []]⟩] } [.str []] rfl
-    (by
-      simp [evalE, evalSegs, Res.bind, lookupVar, lookupAssoc, State.getGlobal, σ4, first, tostringVal,
-        State.metamethod, State.metaOf, State.getTable, State.rawGet, rawGetEntries, rawEq, callVal, libNames,
-        State.canon, canonAux, ρ0, strVal])
-  simp [σ4] at this
-
-
-/-- F3: `0 .. ""` "evaluates" to the Rust-formatted text, execution yields the `tostring` text -/
-theorem evaluate_sound_full_false_F3 : ¬ evaluate_sound_full := by
-  intro h
-  have := h toyN toyE toy_agree call0 ρ0 0 ⟨[], []⟩ (.bin .concat (.num 0) (.str [])) σ0 σ0
-    [.str [2]] (.str [1]) rfl rfl
-  simp at this
-
-/-- F1 reaches the side-effect analysis: `(0 ~= 1) and f()` is declared side-effect free (the left
-operand "evaluates" to `false`), yet execution calls `f` -/
-theorem pure_sound_full_false_F1 : ¬ pure_sound_full := by
-  intro h
   have := h toyN toyE toy_agree call0 ρ0 2 ⟨[], []⟩
-    (.bin .and (.bin .ne (.num 0) (.num 1)) (.call (.var "f") none .tuple []))
+    (.bin .and (.bin .ne (.bin .concat (.num 0) (.str [])) (.str [1])) (.call (.var "f") none .tuple []))
     { σ0 with globals := [("f", .builtin "emit")] }
     { σ0 with globals := [("f", .builtin "emit")], trace := [⟨"emit", []⟩] } [.str []] rfl
     (by
-      simp [evalE, evalEs, Res.bind, binopVal, rawEq, toyN, first, Val.truthy, lookupVar, lookupAssoc,
-        State.getGlobal, σ0, callVal, libNames, ρ0])
+      simp [evalE, evalEs, Res.bind, binopVal, rawEq, toStringPrim?, toyN, first, Val.truthy, lookupVar,
+        lookupAssoc, State.getGlobal, σ0, callVal, libNames, ρ0])
   simp [σ0] at this
+
+-- regression (F4, fixed): an interpolated value the evaluator cannot determine now counts as a side effect
+example : hasSideEffects toyE false (.interp [.v (.var "x")]) = true := rfl
+
+-- regression (F1 reaching purity, fixed): `(0 ~= 1) and f()` is now declared effectful
+example : hasSideEffects toyE false
+    (.bin .and (.bin .ne (.num 0) (.num 1)) (.call (.var "f") none .tuple [])) = true := rfl
 
 /-! ## non-vacuity of the partial theorems (hypotheses met by concrete inputs) -/
 
--- `1 + 2 == 3 and "a" .. "b"`: inside H8 for the toy instance?  no: `==` on numbers disagrees there.
 -- `(1 + 2 < 4) and ("a" .. "b")` is inside H8 and evaluates to the definite string "ab"
 example :
     h8 toyE (.bin .and (.bin .lt (.bin .add (.num 1) (.num 2)) (.num 4)) (.bin .concat (.str [97]) (.str [98]))) = true ∧
